@@ -91,10 +91,17 @@ func exhaustedBy(tm *Termer, g Guard, fam map[ssa.Value]bool, listTerm string) b
 	isLen := yt.String() == "len("+listTerm+")"
 	isZero := yt.String() == "0"
 	switch {
-	case isLen && op == token.GEQ && g.True, isLen && op == token.LSS && !g.True, isLen && op == token.EQL && g.True:
+	case isLen && op == token.GEQ && g.True, isLen && op == token.LSS && !g.True, isLen && op == token.EQL && g.True, isLen && op == token.NEQ && !g.True:
 		return true
 	case isZero && op == token.LSS && g.True, isZero && op == token.GEQ && !g.True:
 		return true
+	}
+	// the same backward test against -1: c <= -1, c == -1, !(c > -1), !(c != -1)
+	if k, isK := c07Int(y); isK && k == -1 {
+		switch {
+		case op == token.LEQ && g.True, op == token.EQL && g.True, op == token.GTR && !g.True, op == token.NEQ && !g.True:
+			return true
+		}
 	}
 	return false
 }
@@ -242,7 +249,7 @@ func constInt(v ssa.Value) (int64, bool) {
 
 // C07 — compatibility distance.
 func C07(p *Prog, r *Run) {
-	r.Explanation = "Decided on compatibility/compatLinear/compatFast: (1) the method dispatch reaches the linear walk exactly for the `linear` option value and the fast walk otherwise; (2) every float division whose denominator is a loop counter starting at 0 is dominated by a test that the counter is positive (never NaN); (3) merge-walk exhaustion: every way out of the walk either has both cursors exhausted, or has one exhausted and adds the remainder of the other list to the distance; (4) per-step accounting over every acyclic path of one loop iteration: a step that advances one cursor adds exactly one unit (one coefficient) of disjoint-or-excess and nothing else, the step that advances both adds no unit, counts one match and accumulates |m1-m2| of the two current genes, no step leaves both cursors in place; in the linear walk a unit is 'excess' exactly when the other list is exhausted, in the fast walk unit kind and next switch state follow the 4-state table; (5) both methods read only the three coefficients, InnovationNum and MutationNum and write nothing. Not decided: equality of the two methods' values for all pairs (implied by 3-4 only informally), floating-point summation order."
+	r.Explanation = "Decided on compatibility/compatLinear/compatFast: (1) the method dispatch reaches the linear walk exactly for the `linear` option value and the fast walk otherwise; (2) every float division whose denominator is a loop counter starting at 0 is dominated by a test that the counter is positive (never NaN); (3) merge-walk exhaustion: every way out of the walk either has both cursors exhausted, or has one exhausted and adds the remainder of the other list to the distance; (4) per-step accounting over every acyclic path of one loop iteration: a step that advances one cursor adds exactly one unit (one coefficient) of disjoint-or-excess and nothing else, the step that advances both adds no unit, counts one match and accumulates |m1-m2| of the two current genes, no step leaves both cursors in place; in the linear walk a unit is 'excess' exactly when the other list is exhausted, in the fast walk unit kind and next switch state follow the 4-state table; (5) both methods read only the three coefficients, InnovationNum and MutationNum and write nothing; (6) the coefficients read are the configured ones: nothing in the library overwrites them in an Options object it was handed, a loader fills them only from its input. In the fast walk an unmatched step advances the list whose current innovation number is larger. Not decided: equality of the two methods' values for all pairs (implied by 3-4 only informally), floating-point summation order."
 	comp := p.Func(PkgG, "Genome.compatibility")
 	lin := p.Func(PkgG, "Genome.compatLinear")
 	fast := p.Func(PkgG, "Genome.compatFast")
@@ -283,6 +290,10 @@ func C07(p *Prog, r *Run) {
 						x = cv.X
 					}
 					if x == den && tm.Of(y).String() == "0" && ((gb.Op == token.GTR && g.True) || (gb.Op == token.NEQ && g.True) || (gb.Op == token.LEQ && !g.True) || (gb.Op == token.EQL && !g.True)) {
+						guarded = true
+					}
+					// the same fact written the other way round (0 < n) or against 1 (n >= 1, !(n < 1))
+					if c07NonZeroBy(gb, g.True, den) {
 						guarded = true
 					}
 				}
@@ -370,7 +381,10 @@ func C07(p *Prog, r *Run) {
 								}
 							}
 						case token.ADD:
-							if isOptField(other, opt("DisjointCoeff")) || isOptField(other, opt("ExcessCoeff")) {
+							// the unit added may reach the addition through a phi (a helper that returns the coefficient)
+							if c07AllFeeders(other, func(f ssa.Value) bool {
+								return isOptField(f, opt("DisjointCoeff")) || isOptField(f, opt("ExcessCoeff"))
+							}) {
 								role = "cost"
 							} else {
 								visit(y, depth+1) // the accumulated value flows on
@@ -435,14 +449,14 @@ func C07(p *Prog, r *Run) {
 				}
 				n := 0
 				for _, a := range adds {
-					k, isK := constInt(a)
+					k, isK := c07PathInt(ip, a)
 					if !isK {
 						return 0, false
 					}
 					n += int(k)
 				}
 				for _, s := range subs {
-					k, isK := constInt(s)
+					k, isK := c07PathInt(ip, s)
 					if !isK {
 						return 0, false
 					}
@@ -484,7 +498,10 @@ func C07(p *Prog, r *Run) {
 				} else {
 					adds, subs, okc := ip.Delta(ip.NextValue(costAcc), costAcc)
 					oku = okc && len(subs) == 0
+					// the operand as computed on this path (a phi of coefficients resolves to the one chosen here)
+					pre := &IterPath{Blocks: ip.Blocks[:len(ip.Blocks)-1], End: "partial"}
 					for _, a := range adds {
+						a = pre.Resolve(a)
 						switch {
 						case isOptField(a, opt("DisjointCoeff")):
 							units++
@@ -506,19 +523,18 @@ func C07(p *Prog, r *Run) {
 					t := tm.Of(a)
 					if t.Op == "call" && t.Name == "math.Abs" && strings.Contains(t.String(), "recv.Genes[*].MutationNum") && strings.Contains(t.String(), "p1.Genes[*].MutationNum") && strings.Contains(t.String(), "-") {
 						hasAbs = true
+					} else if c07AbsByHand(tm, ip, a) {
+						hasAbs = true
 					}
 				}
+				// what the branch outcomes of this path say about the two current innovation numbers
+				innovRel := c07InnovRel(tm, ip.Conds)
 				switch {
 				case a1 == 1 && a2 == 1:
 					ok := units == 0 && m == 1 && len(mdAdds) == 1 && hasAbs
 					// and the step is taken only for equal innovation numbers
-					eq := false
-					for _, g := range ip.Conds {
-						t := tm.Of(g.Cond)
-						if t.Op == "bin" && t.Name == "==" && g.True && strings.Contains(t.String(), "recv.Genes[*].InnovationNum") && strings.Contains(t.String(), "p1.Genes[*].InnovationNum") {
-							eq = true
-						}
-					}
+					// (`==` taken, or `<` and `>` both refused: the outcomes leave only equality)
+					eq := innovRel == c07RelEQ
 					r.Check(ok && eq, label, pos, "matching step: both cursors advance, one match counted, |m1-m2| accumulated, no disjoint/excess unit",
 						fmt.Sprintf("step advancing both cursors: units=%d matches=%d mutdiff-terms=%d abs=%v guarded-by-equal-innovation=%v; expected 0,1,1,true,true", units, m, len(mdAdds), hasAbs, eq), ip.Describe(p)...)
 				case a1+a2 == 1:
@@ -538,19 +554,7 @@ func C07(p *Prog, r *Run) {
 						}
 						// disjoint step direction: the smaller innovation number advances
 						if ok && unitKind == "disjoint" {
-							dir := false
-							for _, g := range ip.Conds {
-								t := tm.Of(g.Cond)
-								if t.Op == "bin" && t.Name == "<" && g.True {
-									l, rr := t.Args[0].String(), t.Args[1].String()
-									if a1 == 1 && l == "recv.Genes[*].InnovationNum" && rr == "p1.Genes[*].InnovationNum" {
-										dir = true
-									}
-									if a2 == 1 && l == "p1.Genes[*].InnovationNum" && rr == "recv.Genes[*].InnovationNum" {
-										dir = true
-									}
-								}
-							}
+							dir := (a1 == 1 && innovRel == c07RelLT) || (a2 == 1 && innovRel == c07RelGT)
 							if !dir {
 								ok = false
 								detail = "a disjoint step does not advance the list whose current innovation number is smaller"
@@ -563,7 +567,7 @@ func C07(p *Prog, r *Run) {
 						neg := map[int64]bool{}
 						for _, g := range ip.Conds {
 							if b, isB := g.Cond.(*ssa.BinOp); isB && b.Op == token.EQL && b.X == ssa.Value(sw) {
-								if k, isK := constInt(b.Y); isK {
+								if k, isK := c07Int(b.Y); isK {
 									if g.True {
 										cur = k
 									} else {
@@ -576,7 +580,7 @@ func C07(p *Prog, r *Run) {
 							cur = 0
 						}
 						nv := ip.NextValue(sw)
-						nx, isK := constInt(nv)
+						nx, isK := c07Int(nv)
 						if nv == ssa.Value(sw) && cur >= 0 {
 							nx, isK = cur, true // unchanged on this path
 						}
@@ -599,7 +603,11 @@ func C07(p *Prog, r *Run) {
 								ok = false
 								detail = fmt.Sprintf("switch state %d, list %d advances: counted as %s, next state %d; the table requires %s and next state %d", cur, own, unitKind, nx, wantKind, wantNext)
 							}
-							// direction: backward walk advances the list with the larger current innovation number
+						}
+						// direction: the backward walk steps over the gene with the larger innovation number (it has no partner on the other list)
+						if ok && !((a1 == 1 && innovRel == c07RelGT) || (a2 == 1 && innovRel == c07RelLT)) {
+							ok = false
+							detail = "an unmatched step of the backward walk does not advance the list whose current innovation number is larger: the gene stepped over may still have a partner further down the other list"
 						}
 					}
 					r.Check(ok, label, pos, fmt.Sprintf("single step: one %s unit, no match", unitKind), detail, ip.Describe(p)...)
@@ -609,7 +617,7 @@ func C07(p *Prog, r *Run) {
 					r.Bad(label, pos, fmt.Sprintf("an iteration advances the cursors by (%d,%d)", a1, a2), ip.Describe(p)...)
 				}
 				if kind == "fast" && sw != nil && a1 == 1 && a2 == 1 {
-					nx, isK := constInt(ip.NextValue(sw))
+					nx, isK := c07Int(ip.NextValue(sw))
 					r.Check(isK && nx == 3, label+".switch", pos, "a match ends the excess region (state 3)", "after a matching pair the switch state is not 3: later unmatched genes would be counted as excess")
 				}
 			case "exit", "return":
@@ -627,45 +635,14 @@ func C07(p *Prog, r *Run) {
 					r.OK(label, pos, "the walk ends with both lists exhausted")
 					continue
 				}
-				// remainder accounting on the exit path
+				// remainder accounting: on every feasible way from this exit to the function result, the value
+				// returned is the cost accumulator plus exactly one term float64(cursor+1)*DisjointCoeff over the
+				// cursor of the list that is not exhausted (the term may sit in the loop body before the break, in
+				// the exit block, or behind a test after the loop - the path decides, not the block it is written in)
 				accounted := false
-				if (ex1 || ex2) && costAcc != nil && ip.ExitTo != nil {
-					otherFam := fam2
-					if ex2 {
-						otherFam = fam1
-					}
-					var cand []ssa.Instruction
-					cand = append(cand, ip.Blocks[len(ip.Blocks)-2].Instrs...)
-					if len(ip.ExitTo.Preds) == 1 {
-						cand = append(cand, ip.ExitTo.Instrs...)
-					}
-					for _, in := range cand {
-						bo, ok := in.(*ssa.BinOp)
-						if !ok || bo.Op != token.ADD {
-							continue
-						}
-						for _, opnd := range []ssa.Value{bo.X, bo.Y} {
-							mul, ok := opnd.(*ssa.BinOp)
-							if !ok || mul.Op != token.MUL {
-								continue
-							}
-							for _, pr := range [][2]ssa.Value{{mul.X, mul.Y}, {mul.Y, mul.X}} {
-								if !isOptField(pr[1], opt("DisjointCoeff")) {
-									continue
-								}
-								cv, ok := pr[0].(*ssa.Convert)
-								if !ok {
-									continue
-								}
-								add, ok := cv.X.(*ssa.BinOp)
-								if ok && add.Op == token.ADD && otherFam[add.X] {
-									if k, isK := constInt(add.Y); isK && k == 1 {
-										accounted = true
-									}
-								}
-							}
-						}
-					}
+				why := ""
+				if costAcc != nil {
+					accounted, why = c07RemainderOnAllPaths(fn, tm, ip, costAcc, fam1, fam2, func(v ssa.Value) bool { return isOptField(v, opt("DisjointCoeff")) })
 				}
 				if !accounted && (ex1 || ex2) && eCnt != nil && ip.ExitTo != nil {
 					// forward form: excess += float64(len(other) - otherCursor)
@@ -702,7 +679,7 @@ func C07(p *Prog, r *Run) {
 				if accounted {
 					r.OK(label, pos, "the walk ends with one list exhausted and adds the remainder of the other list to the distance")
 				} else {
-					r.Bad(label, pos, fmt.Sprintf("the walk can end with list1 exhausted=%v, list2 exhausted=%v and without accounting for the remaining genes: they are neither matched nor counted", ex1, ex2), ip.Describe(p)...)
+					r.Bad(label, pos, fmt.Sprintf("the walk can end with list1 exhausted=%v, list2 exhausted=%v and without accounting for the remaining genes: they are neither matched nor counted%s", ex1, ex2, why), ip.Describe(p)...)
 				}
 			}
 		}
@@ -741,6 +718,102 @@ func C07(p *Prog, r *Run) {
 			}
 		}
 	})
+
+	r.Rule("C07.6", "configured coefficients: the three coefficients both walks read are the configured values - no function of the library overwrites DisjointCoeff/ExcessCoeff/MutdiffCoeff of an Options object it was handed, and where a loader fills a fresh Options the value stored neither depends on another option field nor is stored under a test of a coefficient", func() {
+		r.c07Coefficients()
+	})
+}
+
+// c07Coefficients implements C07.6. The distance is excess_coeff*E + disjoint_coeff*D + mutdiff_coeff*W for the
+// coefficients of the configuration; the walks read them from *Options, so every write to these fields anywhere in
+// the library is part of the formula. A write is the configuration itself only when it fills the object under
+// construction (allocated in the same function) with a value read from the input; rewriting a coefficient of an
+// existing object, deriving one coefficient from another option, or replacing it under a test of its own value
+// (`if c.ExcessCoeff == 0 { c.ExcessCoeff = c.DisjointCoeff }`: an explicit 0 cannot be told from an omitted one)
+// makes the value used differ from the one configured.
+func (r *Run) c07Coefficients() {
+	p := r.P
+	coeff := map[*types.Var]bool{
+		p.Field(PkgT, "Options", "DisjointCoeff"): true,
+		p.Field(PkgT, "Options", "ExcessCoeff"):   true,
+		p.Field(PkgT, "Options", "MutdiffCoeff"):  true,
+	}
+	optsT := p.Named(PkgT, "Options")
+	isCoeff := func(f *types.Var) bool { return coeff[f] }
+	isOptionsField := func(f *types.Var) bool {
+		for i := 0; i < optsT.Underlying().(*types.Struct).NumFields(); i++ {
+			if optsT.Underlying().(*types.Struct).Field(i) == f {
+				return true
+			}
+		}
+		return false
+	}
+	fresh := func(v ssa.Value) bool {
+		for {
+			if ct, ok := v.(*ssa.ChangeType); ok {
+				v = ct.X
+				continue
+			}
+			break
+		}
+		_, ok := v.(*ssa.Alloc)
+		return ok
+	}
+	nWrites, nBad := 0, 0
+	for _, fn := range p.SrcFuncs() {
+		fn := fn
+		Instrs(fn, func(b *ssa.BasicBlock, _ int, in ssa.Instruction) {
+			st, ok := in.(*ssa.Store)
+			if !ok {
+				return
+			}
+			if f := StoredField(st); f != nil && coeff[f] {
+				nWrites++
+				fa := st.Addr.(*ssa.FieldAddr)
+				construct := "coefficients.write:" + fn.Name() + "." + f.Name()
+				setter := false
+				if !fresh(fa.X) {
+					// a setter: the object is a parameter, the value comes from the caller, and every caller inside
+					// the library hands in the object it is constructing (no caller at all: public API or a helper
+					// that normalisation inlined - the user/loader is then the one who configures)
+					if prm := c07ParamRoot(fa.X); prm != nil && c07ReachesParam(st.Val) && c07CallersPassFresh(p, fn, prm, 0) {
+						setter = true
+					}
+				}
+				switch {
+				case !fresh(fa.X) && !setter:
+					nBad++
+					r.Bad(construct, p.Pos(st.Pos()), FuncName(fn)+" overwrites "+f.Name()+" of an Options object it did not create: the coefficient the compatibility walks read is then not the configured one")
+				case c07ReadsField(st.Val, isOptionsField):
+					nBad++
+					r.Bad(construct, p.Pos(st.Pos()), FuncName(fn)+" stores into "+f.Name()+" a value derived from another option field: the coefficient used is not the configured one")
+				default:
+					cond := false
+					for _, g := range Guards(b) {
+						if c07ReadsField(g.Cond, isCoeff) {
+							cond = true
+						}
+					}
+					if cond {
+						nBad++
+						r.Bad(construct, p.Pos(st.Pos()), FuncName(fn)+" replaces "+f.Name()+" under a test of a coefficient value: a configured boundary value (0) cannot be told from an omitted one and is silently changed")
+					} else {
+						r.OK(construct, p.Pos(st.Pos()), "fills "+f.Name()+" of the Options object under construction from the input")
+					}
+				}
+				return
+			}
+			// whole-object assignment *opts = ... through a pointer the function did not allocate
+			if pt, ok := st.Addr.Type().Underlying().(*types.Pointer); ok && types.Identical(pt.Elem(), optsT) && !fresh(st.Addr) {
+				nWrites++
+				nBad++
+				r.Bad("coefficients.write:"+fn.Name()+".*Options", p.Pos(st.Pos()), FuncName(fn)+" overwrites a whole Options object it did not create (and with it the configured coefficients)")
+			}
+		})
+	}
+	if nBad == 0 {
+		r.OK("coefficients.writers", "-", fmt.Sprintf("%d write(s) to the three coefficients in the library, all of them fill a fresh Options object from the input", nWrites))
+	}
 }
 
 func pathKey(ip *IterPath) string {
@@ -795,8 +868,17 @@ func (r *Run) c07Dispatch() {
 		okA := a[0].Op == "recv" && isParamIdx(a[1], 1) && isParamIdx(a[2], 2)
 		retOK := false
 		for _, b := range comp.Blocks {
-			if ret, ok := b.Instrs[len(b.Instrs)-1].(*ssa.Return); ok && ret.Results[0] == c.Value() {
-				retOK = true
+			if ret, ok := b.Instrs[len(b.Instrs)-1].(*ssa.Return); ok {
+				if ret.Results[0] == c.Value() {
+					retOK = true
+				}
+				// through a result variable: the call's value is one of the values merged into what is returned
+				// (every other value merged in is judged by compatibility.other-result below)
+				for _, f := range phiWeb(ret.Results[0]).Feeders {
+					if f == c.Value() {
+						retOK = true
+					}
+				}
 			}
 		}
 		r.Check(okA && retOK, "compatibility.passes:"+c.Common().StaticCallee().Name(), p.Pos(c.Pos()), "same genomes and options passed on, result returned", "the walk is not called with (g, og, opts) or its result is not what compatibility returns")
